@@ -98,7 +98,7 @@ impl SendRequest<RequestMessage<Vec<u8>>> for Up {
         if (h.ad() || dnssec_ok) && !h.cd() {
             flags |= 0x0020;
         }
-        if matches!(kind, "positive" | "nodata" | "nxdomain") && marker % 3 == 0 {
+        if matches!(kind, "positive" | "nodata" | "nxdomain" | "cname-nodata" | "cname-nxdomain" | "cname-positive") && marker % 3 == 0 {
             flags |= 0x0400; // AA, as an authoritative server would
         }
         let mut answer: Vec<(Vec<u8>, u16, u32, Vec<u8>)> = vec![];
@@ -160,6 +160,29 @@ impl SendRequest<RequestMessage<Vec<u8>>> for Up {
                         o.extend_from_slice(&[b'0'; 32]);
                         o.extend_from_slice(b"\x04test\x00");
                         authority.push((o, T_NSEC3, ttl1, n3));
+                    }
+                }
+            }
+            "cname-nodata" | "cname-nxdomain" | "cname-positive" => {
+                // the name is an alias: the answer section holds the CNAME and, if the target has
+                // such data, the target's records; otherwise the negative answer is about the target
+                // (RFC 2308 2.1, 2.2): still NODATA / NXDOMAIN, bounded like one
+                let target = b"\x06target\x04test\x00".to_vec();
+                let cttl = ttl1.saturating_add(if marker % 2 == 0 { 40 } else { 0 });
+                answer.push((qname.clone(), 5, cttl, target.clone()));
+                if dnssec_ok {
+                    // (an RRSIG has the TTL of the RRset it covers, RFC 4034 3)
+                    answer.push((qname.clone(), T_RRSIG, cttl, rrsig_rdata(5, marker)));
+                }
+                if kind == "cname-positive" {
+                    answer.push((target.clone(), qtype, ttl1.saturating_add(3), mk(qtype)));
+                } else {
+                    if kind == "cname-nxdomain" {
+                        rcode = 3;
+                    }
+                    authority.push((b"\x04test\x00".to_vec(), T_SOA, ttl1, soa_rdata(marker, ttl2.max(ttl1))));
+                    if dnssec_ok {
+                        authority.push((b"\x04test\x00".to_vec(), T_RRSIG, ttl1, rrsig_rdata(T_SOA, marker)));
                     }
                 }
             }
@@ -274,7 +297,7 @@ fn marker_of(m: &[u8]) -> Option<u32> {
 
 fn one_case(c: &mut Ctx, fam: &str, idx: u64) {
     let mut rng = c.case_rng(fam, idx);
-    let kinds: [&'static str; 9] = ["positive", "positive", "nodata", "nxdomain", "delegation", "servfail", "truncated", "transport-failure", "weird"];
+    let kinds: [&'static str; 12] = ["positive", "positive", "nodata", "nxdomain", "delegation", "servfail", "truncated", "transport-failure", "weird", "cname-nodata", "cname-nxdomain", "cname-positive"];
     let nnames = 4;
     let names: Vec<Vec<u8>> = (0..nnames)
         .map(|i| {
@@ -512,6 +535,9 @@ fn one_case(c: &mut Ctx, fam: &str, idx: u64) {
                 }
                 c.count("answers_from_cache", 1);
                 c.count(&format!("cached:{}", class), 1);
+                if u.kind.starts_with("cname") {
+                    c.count(&format!("cached:{}", u.kind), 1);
+                }
                 if u.rd != q.rd || u.ad != q.ad || u.dnssec_ok != q.dnssec_ok {
                     c.count("served_across_flag_variants", 1);
                 }
@@ -538,7 +564,7 @@ pub fn run(c: &mut Ctx) {
         one_case(c, fam, idx);
     }
     if !c.replaying() {
-        for k in ["answers_from_cache", "answers_from_upstream", "cached:answer", "cached:nodata", "cached:nxdomain", "cached:error", "cached_failures_served", "served_across_flag_variants"] {
+        for k in ["answers_from_cache", "answers_from_upstream", "cached:answer", "cached:nodata", "cached:nxdomain", "cached:error", "cached_failures_served", "served_across_flag_variants", "cached:cname-nodata", "cached:cname-nxdomain", "cached:cname-positive"] {
             c.floor(k, 5);
         }
     }
